@@ -30,7 +30,7 @@ CHECKS = {
         technique="property-based testing (rapid) against a set/boolean reference model + exhaustive enumeration of ID pairs",
         ref="DESIGN.md section 5, C04"),
     "C05": dict(
-        text="Relation-centred generated histories through every API that takes a target, with injected faults (dead targets incl. recycled ids, second relation components); after every operation Relations.Get, Query.Relation and one RelationFilter query per (relation component, target in use or dead) are compared with the model, and every injected fault must panic and leave the world equal to the unchanged model.",
+        text="Relation-centred generated histories through every API that takes a target, with injected faults (dead targets incl. recycled ids, second relation components); after every operation Relations.Get, Query.Relation and one RelationFilter query per (relation component, target in use or dead) are compared with the model, and every injected fault must panic and leave the world equal to the unchanged model. Generic part (TestC05Generic): targets assigned and relation filters built through package generic (MapN, Map, Exchange, FilterN.WithRelation with fixed, re-assigned and call-time targets) in lock-step with the ID-based calls; only target and relation-filter mismatches are owned.",
         note="Statement scoped to entities carrying a relation component, as worded (DESIGN 4.5).",
         technique=SIM + " with fault injection (dead targets, second relations)",
         ref="DESIGN.md section 5, C05"),
